@@ -12,6 +12,24 @@ The loader applies these rewrites, each of which preserves behaviour exactly, be
                                           the left operand is "more constant" than the right one (literal > ALL_CAPS name or
                                           attribute > anything else) and both operands are free of calls with effects (names,
                                           attributes, subscripts, literals, len()/arithmetic of those).
+ K4  `isinstance(x, A) or isinstance(x, B)` -> `isinstance(x, (A, B))` for adjacent disjuncts on the same effect-free
+     subject, and `isinstance(x, A | B)` -> `isinstance(x, (A, B))`; a one-element tuple is written as the class itself.
+ K5  `if not c: A else: B` -> `if c: B else: A` (both arms present; `elif` chains keep their order because the else arm
+     that is a single `if` is left alone).
+ K6  a module-level constant `_NAME = <str/int literal>` bound exactly once in its module (never stored elsewhere, no
+     `global`) is written out where the same module loads it.
+ K7  `ys = []` immediately followed by `for v in xs: [if c:] ys.append(e)` whose loop variables are used nowhere else in
+     the function -> `ys = [e for v in xs if c]`.
+ K8  a loop over a literal table (`for name in ("add", "mul"):`, `for a, b in TABLE:` / `TABLE.items()` with TABLE a
+     module constant or a local bound once to a literal, never mutated) whose body is straight-line code without
+     closures over the loop variable is unrolled, the loop variable replaced by each literal in turn.
+ K9  `setattr(o, "name", v)` as a statement -> `o.name = v`;  K10 `getattr(o, "name")` -> `o.name`  (identifier literals,
+     no default, no name-mangled `__x`).  Together with K8 a table filled by `for n in NAMES: setattr(self, n, f(getattr(ns, n)))`
+     reads as the plain assignments it performs.
+ K11 a call of a small local factory (a nested `def` bound once in the same function, plain parameters) with literal /
+     reference arguments is replaced by what it returns: parameters substituted, `if <constant>` folded, once-used
+     locals written out - provided the body then is straight-line and ends in one `return E`.
+     (`def reduce_row(op): return ns.reduce(op, axis="dim")` ... `self.sum = reduce_row(torch.sum)`)
  K3  `not (a == b)` -> `a != b`, `not (a != b)` -> `a == b`, `not (a is b)` -> `a is not b`, `not (a in b)` -> `a not in b`
      (and the inverses `not (a is not b)`, `not (a not in b)`), for single-operator comparisons.
 
@@ -72,6 +90,59 @@ class _Exprs(ast.NodeTransformer):
                 self.count["K2"] += 1
         return node
 
+    @staticmethod
+    def _isinstance(e):
+        return isinstance(e, ast.Call) and isinstance(e.func, ast.Name) and e.func.id == "isinstance" and len(e.args) == 2 and not e.keywords
+
+    @staticmethod
+    def _classes(e):
+        out, st = [], [e]
+        while st:
+            x = st.pop()
+            if isinstance(x, ast.BinOp) and isinstance(x.op, ast.BitOr):
+                st += [x.right, x.left]
+            elif isinstance(x, ast.Tuple):
+                st += list(reversed(x.elts))
+            else:
+                out.append(x)
+        return out
+
+    def visit_Call(self, node):
+        self.generic_visit(node)
+        if self._isinstance(node) and isinstance(node.args[1], (ast.BinOp, ast.Tuple)):
+            cl = self._classes(node.args[1])
+            if all(isinstance(c, (ast.Name, ast.Attribute)) for c in cl) and cl:
+                new = cl[0] if len(cl) == 1 else ast.Tuple(elts=cl, ctx=ast.Load())
+                if ast.dump(new) != ast.dump(node.args[1]):
+                    node.args[1] = ast.copy_location(new, node.args[1])
+                    self.count["K4"] = self.count.get("K4", 0) + 1
+        return node
+
+    def visit_BoolOp(self, node):
+        self.generic_visit(node)
+        if isinstance(node.op, ast.Or):
+            out = []
+            for v in node.values:
+                prev = out[-1] if out else None
+                if prev is not None and self._isinstance(v) and self._isinstance(prev) and _pure(v.args[0]) and ast.dump(v.args[0]) == ast.dump(prev.args[0]) and all(isinstance(c, (ast.Name, ast.Attribute)) for c in self._classes(prev.args[1]) + self._classes(v.args[1])):
+                    cl = self._classes(prev.args[1]) + self._classes(v.args[1])
+                    prev.args[1] = ast.copy_location(ast.Tuple(elts=cl, ctx=ast.Load()), prev.args[1])
+                    self.count["K4"] = self.count.get("K4", 0) + 1
+                else:
+                    out.append(v)
+            if len(out) == 1:
+                return out[0]
+            node.values = out
+        return node
+
+    def visit_If(self, node):
+        self.generic_visit(node)
+        if node.orelse and isinstance(node.test, ast.UnaryOp) and isinstance(node.test.op, ast.Not) and not (len(node.orelse) == 1 and isinstance(node.orelse[0], ast.If)):
+            node.test = node.test.operand
+            node.body, node.orelse = node.orelse, node.body
+            self.count["K5"] = self.count.get("K5", 0) + 1
+        return node
+
     def visit_UnaryOp(self, node):
         self.generic_visit(node)
         if isinstance(node.op, ast.Not) and isinstance(node.operand, ast.Compare) and len(node.operand.ops) == 1 and type(node.operand.ops[0]) in _NEG:
@@ -80,6 +151,12 @@ class _Exprs(ast.NodeTransformer):
             self.count["K3"] += 1
             return ast.copy_location(new, node)
         return node
+
+
+def _comp_targets(node):
+    if isinstance(node, (ast.ListComp, ast.SetComp, ast.DictComp, ast.GeneratorExp)):
+        return frozenset(t.id for g in node.generators for t in ast.walk(g.target) if isinstance(t, ast.Name))
+    return frozenset()
 
 
 def _name_uses(fn):
@@ -181,15 +258,580 @@ def _inline_temps(fn, count):
     walk(fn)
 
 
+def _inline_module_constants(tree, count):
+    cands = {}
+    for st in tree.body:
+        if isinstance(st, ast.Assign) and len(st.targets) == 1 and isinstance(st.targets[0], ast.Name) and isinstance(st.value, ast.Constant) and isinstance(st.value.value, (str, int)) and not isinstance(st.value.value, bool):
+            nm = st.targets[0].id
+            if nm.startswith("_") and nm.upper() == nm and len(nm) > 2:
+                cands[nm] = st
+    if not cands:
+        return
+    stores = {}
+    for x in ast.walk(tree):
+        if isinstance(x, ast.Name) and not isinstance(x.ctx, ast.Load):
+            stores[x.id] = stores.get(x.id, 0) + 1
+        elif isinstance(x, (ast.Global, ast.Nonlocal)):
+            for n in x.names:
+                stores[n] = stores.get(n, 0) + 2
+        elif isinstance(x, ast.arg):
+            stores[x.arg] = stores.get(x.arg, 0) + 2
+        elif isinstance(x, (ast.FunctionDef, ast.AsyncFunctionDef, ast.ClassDef)):
+            stores[x.name] = stores.get(x.name, 0) + 2
+        elif isinstance(x, (ast.Import, ast.ImportFrom)):
+            for a in x.names:
+                k = (a.asname or a.name).split(".")[0]
+                stores[k] = stores.get(k, 0) + 2
+        elif isinstance(x, ast.ExceptHandler) and x.name:
+            stores[x.name] = stores.get(x.name, 0) + 2
+    cands = {n: st for n, st in cands.items() if stores.get(n, 0) == 1}
+    if not cands:
+        return
+
+    class R(ast.NodeTransformer):
+        def visit_Name(self, n):
+            if isinstance(n.ctx, ast.Load) and n.id in cands:
+                count["K6"] = count.get("K6", 0) + 1
+                return ast.copy_location(ast.Constant(value=cands[n.id].value.value), n)
+            return n
+
+    R().visit(tree)
+
+
+def _loops_to_comprehensions(fn, count):
+    loads, other, stores = {}, set(), {}
+
+    def visit(node, nested, own=frozenset()):
+        for ch in ast.iter_child_nodes(node):
+            if isinstance(ch, ast.Name):
+                if nested:
+                    if ch.id not in own:
+                        other.add(ch.id)
+                elif isinstance(ch.ctx, ast.Load):
+                    loads.setdefault(ch.id, []).append(ch)
+                else:
+                    stores[ch.id] = stores.get(ch.id, 0) + 1
+            elif isinstance(ch, (ast.Global, ast.Nonlocal)):
+                other.update(ch.names)
+            # the variables of a comprehension are its own: `[id(i) for i in xs]` says nothing about a local `i`
+            visit(ch, nested or isinstance(ch, _SCOPES), own | _comp_targets(ch))
+
+    for st in fn.body:
+        visit(ast.Module(body=[st], type_ignores=[]), isinstance(st, _SCOPES))
+    params = {a.arg for a in ast.walk(fn.args) if isinstance(a, ast.arg)}
+
+    def block(stmts):
+        i = 0
+        while i + 1 < len(stmts):
+            a, b = stmts[i], stmts[i + 1]
+            if (
+                isinstance(a, ast.Assign)
+                and len(a.targets) == 1
+                and isinstance(a.targets[0], ast.Name)
+                and isinstance(a.value, ast.List)
+                and not a.value.elts
+                and isinstance(b, ast.For)
+                and not b.orelse
+                and len(b.body) == 1
+            ):
+                y = a.targets[0].id
+                inner, conds = b.body[0], []
+                while isinstance(inner, ast.If) and not inner.orelse and len(inner.body) == 1:
+                    conds.append(inner.test)
+                    inner = inner.body[0]
+                call = inner.value if isinstance(inner, ast.Expr) else None
+                tn = [t.id for t in ast.walk(b.target) if isinstance(t, ast.Name)]
+                inside = {id(x) for x in ast.walk(b)}
+                if (
+                    isinstance(call, ast.Call)
+                    and isinstance(call.func, ast.Attribute)
+                    and call.func.attr == "append"
+                    and isinstance(call.func.value, ast.Name)
+                    and call.func.value.id == y
+                    and len(call.args) == 1
+                    and not call.keywords
+                    and not isinstance(call.args[0], ast.Starred)
+                    and all(isinstance(t, (ast.Name, ast.Tuple, ast.List)) for t in ast.walk(b.target) if not isinstance(t, ast.expr_context))
+                    and all(stores.get(t, 0) == 1 and t not in other and t not in params and all(id(l) in inside for l in loads.get(t, [])) for t in tn)
+                    and not any(isinstance(x, ast.Name) and x.id == y for part in [b.iter, call.args[0]] + conds for x in ast.walk(part))
+                    and not any(isinstance(x, (ast.Yield, ast.YieldFrom, ast.Await, ast.NamedExpr)) for x in ast.walk(b))
+                ):
+                    comp = ast.ListComp(elt=call.args[0], generators=[ast.comprehension(target=b.target, iter=b.iter, ifs=conds, is_async=0)])
+                    a.value = ast.copy_location(comp, b)
+                    del stmts[i + 1]
+                    count["K7"] = count.get("K7", 0) + 1
+                    continue
+            i += 1
+
+    def walk(node):
+        for fld in ("body", "orelse", "finalbody"):
+            blk = getattr(node, fld, None)
+            if isinstance(blk, list) and blk and isinstance(blk[0], ast.stmt):
+                for st in blk:
+                    if not isinstance(st, (ast.FunctionDef, ast.AsyncFunctionDef, ast.ClassDef)):
+                        walk(st)
+                block(blk)
+        for h in getattr(node, "handlers", []) or []:
+            walk(h)
+
+    walk(fn)
+
+
+def _is_literal(e):
+    if isinstance(e, ast.Constant):
+        return True
+    if isinstance(e, (ast.Tuple, ast.List)):
+        return all(_is_literal(x) for x in e.elts)
+    if isinstance(e, ast.UnaryOp) and isinstance(e.op, ast.USub) and isinstance(e.operand, ast.Constant):
+        return True
+    return False
+
+
+def _is_ref(e):
+    """a reference that can be read at any time with the same result: a dotted name, getattr(<dotted name>, "lit")"""
+    if isinstance(e, ast.Name):
+        return True
+    if isinstance(e, ast.Attribute):
+        return _is_ref(e.value)
+    if isinstance(e, ast.Call) and isinstance(e.func, ast.Name) and e.func.id == "getattr" and len(e.args) == 2 and not e.keywords and _is_ref(e.args[0]) and _is_literal(e.args[1]):
+        return True
+    return False
+
+
+def _literal_table(e):
+    """rows of a literal table expression: [(ast literal per loop target component ...)] or None"""
+    if isinstance(e, ast.Dict) and e.keys and all(k is not None and _is_literal(k) for k in e.keys) and all(_is_literal(v) or _is_ref(v) for v in e.values):
+        return [ast.Tuple(elts=[k, v], ctx=ast.Load()) for k, v in zip(e.keys, e.values)]
+    if isinstance(e, ast.Call) and isinstance(e.func, ast.Attribute) and e.func.attr == "split" and not e.args and not e.keywords and isinstance(e.func.value, ast.Constant) and isinstance(e.func.value.value, str) and e.func.value.value.split():
+        return [ast.copy_location(ast.Constant(value=w), e) for w in e.func.value.value.split()]  # "a b c".split()
+    if isinstance(e, ast.DictComp) and len(e.generators) == 1 and not e.generators[0].ifs and isinstance(e.generators[0].target, ast.Name) and isinstance(e.key, ast.Name) and e.key.id == e.generators[0].target.id:
+        # {name: getattr(ns, name) for name in ("a", "b")}
+        keys = _literal_table(e.generators[0].iter) if isinstance(e.generators[0].iter, (ast.Tuple, ast.List)) else None
+        if keys is not None and all(isinstance(k, ast.Constant) for k in keys):
+            rows = []
+            for k in keys:
+                v = _Subst({e.key.id: k}).visit(_copy(e.value))
+                if not (_is_literal(v) or _is_ref(v)):
+                    return None
+                rows.append(ast.Tuple(elts=[k, v], ctx=ast.Load()))
+            return rows
+    if isinstance(e, (ast.Tuple, ast.List)) and e.elts and all(_is_row(x) for x in e.elts) and not all(_is_ref(x) and not _is_literal(x) for x in e.elts):
+        return list(e.elts)
+    return None
+
+
+def _is_row(e):
+    """a table row: a literal, or a tuple of literals and references (`("add", tf.add)`)"""
+    if _is_literal(e):
+        return True
+    if isinstance(e, (ast.Tuple, ast.List)) and e.elts:
+        return all(_is_literal(x) or _is_ref(x) or _is_row(x) for x in e.elts)
+    return False
+
+
+def _once_bound_literals(scope_body, whole):
+    """{name: rows} for names bound exactly once in `whole` (by a plain assignment in `scope_body`) to a literal table that
+    is never mutated (no method call on it, no subscript store, no augmented assignment)"""
+    cands = {}
+    allowed = set()  # nodes of the building statements that directly follow the first binding
+    for i, st in enumerate(scope_body):
+        if isinstance(st, ast.Assign) and len(st.targets) == 1 and isinstance(st.targets[0], ast.Name):
+            rows = _literal_table(st.value)
+            if rows is not None:
+                nm = st.targets[0].id
+                isdict = isinstance(st.value, (ast.Dict, ast.DictComp))
+                rows = list(rows)
+                # `xs = [...]` directly followed by `xs += [...]` / `xs.extend([...])` / `xs.append(lit)`: one literal table
+                j = i + 1
+                while j < len(scope_body) and not isdict and isinstance(st.value, (ast.List, ast.Call)):
+                    nx = scope_body[j]
+                    more = None
+                    if isinstance(nx, ast.AugAssign) and isinstance(nx.op, ast.Add) and isinstance(nx.target, ast.Name) and nx.target.id == nm and isinstance(nx.value, (ast.List, ast.Tuple)):
+                        more = _literal_table(nx.value) if nx.value.elts else []
+                    elif isinstance(nx, ast.Expr) and isinstance(nx.value, ast.Call) and isinstance(nx.value.func, ast.Attribute) and isinstance(nx.value.func.value, ast.Name) and nx.value.func.value.id == nm and len(nx.value.args) == 1 and not nx.value.keywords:
+                        if nx.value.func.attr == "extend" and isinstance(nx.value.args[0], (ast.List, ast.Tuple)):
+                            more = _literal_table(nx.value.args[0]) if nx.value.args[0].elts else []
+                        elif nx.value.func.attr == "append" and _is_row(nx.value.args[0]):
+                            more = [nx.value.args[0]]
+                    if more is None:
+                        break
+                    rows += more
+                    allowed.update(id(y) for y in ast.walk(nx))
+                    j += 1
+                cands[nm] = (st, rows, isdict)
+    if not cands:
+        return {}
+    bad = set()
+    stores = {}
+    for x in ast.walk(whole):
+        if id(x) in allowed:
+            continue
+        if isinstance(x, ast.Name) and x.id in cands:
+            if not isinstance(x.ctx, ast.Load):
+                stores[x.id] = stores.get(x.id, 0) + 1
+        elif isinstance(x, (ast.Global, ast.Nonlocal)):
+            bad.update(n for n in x.names if n in cands)
+        elif isinstance(x, ast.arg) and x.arg in cands:
+            bad.add(x.arg)
+        if isinstance(x, ast.Attribute) and isinstance(x.value, ast.Name) and x.value.id in cands and x.attr not in ("items", "keys", "values", "index", "count"):
+            bad.add(x.value.id)
+        if isinstance(x, ast.Subscript) and isinstance(x.value, ast.Name) and x.value.id in cands and not isinstance(x.ctx, ast.Load):
+            bad.add(x.value.id)
+        if isinstance(x, ast.AugAssign) and isinstance(x.target, ast.Name) and x.target.id in cands:
+            bad.add(x.target.id)
+    return {n: (rows, isdict) for n, (st, rows, isdict) in cands.items() if n not in bad and stores.get(n, 0) == 1}
+
+
+class _Subst(ast.NodeTransformer):
+    def __init__(self, mapping):
+        self.mapping = mapping
+
+    def visit_Name(self, n):
+        if isinstance(n.ctx, ast.Load) and n.id in self.mapping:
+            return ast.copy_location(_copy(self.mapping[n.id]), n)
+        return n
+
+
+def _copy(node):
+    if isinstance(node, list):
+        return [_copy(x) for x in node]
+    if not isinstance(node, ast.AST):
+        return node
+    new = type(node)()
+    for f in node._fields:
+        if hasattr(node, f):
+            setattr(new, f, _copy(getattr(node, f)))
+    for a in ("lineno", "col_offset", "end_lineno", "end_col_offset"):
+        if hasattr(node, a):
+            setattr(new, a, getattr(node, a))
+    return new
+
+
+def _unroll_table_loops(scope, module_tables, count):
+    """scope: a FunctionDef or the Module"""
+    local_tables = _once_bound_literals(scope.body, scope) if not isinstance(scope, ast.Module) else {}
+
+    def rows_of(it):
+        if isinstance(it, ast.Name):
+            t = local_tables.get(it.id) or module_tables.get(it.id)
+            if t is None:
+                return None
+            rows, isdict = t
+            return [r.elts[0] for r in rows] if isdict else rows
+        if isinstance(it, ast.Call) and isinstance(it.func, ast.Attribute) and it.func.attr in ("items", "keys", "values") and not it.args and isinstance(it.func.value, ast.Name):
+            t = local_tables.get(it.func.value.id) or module_tables.get(it.func.value.id)
+            if t is None or not t[1]:
+                return None
+            rows = t[0]
+            return rows if it.func.attr == "items" else [r.elts[0 if it.func.attr == "keys" else 1] for r in rows]
+        if isinstance(it, ast.Call) and isinstance(it.func, ast.Attribute) and it.func.attr == "items" and not it.args and isinstance(it.func.value, ast.Dict):
+            return _literal_table(it.func.value)
+        return _literal_table(it)
+
+    def target_names(t):
+        if isinstance(t, ast.Name):
+            return [t.id]
+        if isinstance(t, (ast.Tuple, ast.List)) and all(isinstance(e, ast.Name) for e in t.elts):
+            return [e.id for e in t.elts]
+        return None
+
+    def simple(st):
+        return isinstance(st, (ast.Assign, ast.Expr, ast.AugAssign, ast.AnnAssign, ast.Pass)) or (isinstance(st, ast.If) and all(simple(x) for x in st.body + st.orelse))
+
+    parents = {}
+    for par in ast.walk(scope):
+        for ch in ast.iter_child_nodes(par):
+            parents[id(ch)] = par
+
+    # loads of every name outside its loop make unrolling inexact (the loop variable's last value would be read)
+    def block(stmts):
+        out = []
+        for st in stmts:
+            if isinstance(st, (ast.FunctionDef, ast.AsyncFunctionDef, ast.ClassDef)):
+                out.append(st)
+                continue
+            for fld in ("body", "orelse", "finalbody"):
+                blk = getattr(st, fld, None)
+                if isinstance(blk, list) and blk and isinstance(blk[0], ast.stmt):
+                    setattr(st, fld, block(blk))
+            for h in getattr(st, "handlers", []) or []:
+                h.body = block(h.body)
+            if isinstance(st, ast.For) and not st.orelse:
+                names = target_names(st.target)
+                rows = rows_of(st.iter) if names else None
+                if rows is not None and 0 < len(rows) <= 80 and all(simple(x) for x in st.body):
+                    inner_scopes = [x for b in st.body for x in ast.walk(b) if isinstance(x, (ast.Lambda, ast.FunctionDef, ast.GeneratorExp))]
+                    captured = any(isinstance(y, ast.Name) and y.id in names for x in inner_scopes for y in ast.walk(x))
+                    rebinds = any(isinstance(y, ast.Name) and y.id in names and not isinstance(y.ctx, ast.Load) for b in st.body for y in ast.walk(b))
+                    inside = {id(y) for y in ast.walk(st)}
+                    used_outside = any(isinstance(y, ast.Name) and y.id in names and id(y) not in inside and not _rebound_by_own_loop(y, scope, parents) for y in ast.walk(scope))
+                    shapes_ok = all((len(names) == 1) or (isinstance(r, (ast.Tuple, ast.List)) and len(r.elts) == len(names)) for r in rows)
+                    if not captured and not rebinds and not used_outside and shapes_ok:
+                        for r in rows:
+                            mapping = {names[0]: r} if len(names) == 1 else dict(zip(names, r.elts))
+                            for b in st.body:
+                                nb = _Subst(mapping).visit(_copy(b))
+                                ast.copy_location(nb, st)
+                                out.append(nb)
+                        count["K8"] = count.get("K8", 0) + 1
+                        continue
+            out.append(st)
+        return out
+
+    scope.body = block(scope.body)
+
+
+def _rebound_by_own_loop(name_node, scope, parents):
+    """is this use of a name inside the body of another loop / comprehension that binds the same name itself?"""
+    cur = name_node
+    while id(cur) in parents:
+        par = parents[id(cur)]
+        if isinstance(par, ast.For) and cur in par.body and any(isinstance(t, ast.Name) and t.id == name_node.id for t in ast.walk(par.target)):
+            return True
+        if isinstance(par, (ast.ListComp, ast.SetComp, ast.DictComp, ast.GeneratorExp)) and any(isinstance(t, ast.Name) and t.id == name_node.id for g in par.generators for t in ast.walk(g.target)):
+            return True
+        if isinstance(par, ast.For) and any(x is cur for x in ast.walk(par.target)):
+            return True  # the binding occurrence itself
+        if isinstance(par, (ast.FunctionDef, ast.AsyncFunctionDef, ast.Lambda)) and par is not scope and any(a.arg == name_node.id for a in ast.walk(par.args) if isinstance(a, ast.arg)):
+            return True  # a nested function's own parameter of the same name
+        cur = par
+    return False
+
+
+def _const_truth(e):
+    """truth value of a test that is decided by literals alone, else None"""
+    if isinstance(e, ast.Constant):
+        return bool(e.value)
+    if isinstance(e, ast.UnaryOp) and isinstance(e.op, ast.Not):
+        v = _const_truth(e.operand)
+        return None if v is None else not v
+    if isinstance(e, ast.Compare) and len(e.ops) == 1 and isinstance(e.left, ast.Constant) and isinstance(e.comparators[0], ast.Constant):
+        a, b, op = e.left.value, e.comparators[0].value, e.ops[0]
+        if isinstance(op, (ast.Is, ast.IsNot)) and (a is None or b is None or isinstance(a, bool) or isinstance(b, bool)):
+            return (a is b) if isinstance(op, ast.Is) else (a is not b)
+        if isinstance(op, (ast.Eq, ast.NotEq)) and type(a) is type(b):
+            return (a == b) if isinstance(op, ast.Eq) else (a != b)
+        return None
+    if isinstance(e, ast.BoolOp):
+        vals = [_const_truth(v) for v in e.values]
+        if any(v is None for v in vals):
+            return None
+        return all(vals) if isinstance(e.op, ast.And) else any(vals)
+    return None
+
+
+def _inline_local_factories(fn, count):
+    helpers = {}
+    stores = {}
+    for x in ast.walk(fn):
+        if isinstance(x, ast.Name) and not isinstance(x.ctx, ast.Load):
+            stores[x.id] = stores.get(x.id, 0) + 1
+    for st in fn.body:
+        if isinstance(st, ast.FunctionDef) and not st.decorator_list:
+            a = st.args
+            if a.vararg or a.kwarg or a.posonlyargs:
+                continue
+            if any(isinstance(y, (ast.Yield, ast.YieldFrom, ast.Global, ast.Nonlocal, ast.Await)) for y in ast.walk(st)):
+                continue
+            if len(st.body) > 12:
+                continue
+            helpers[st.name] = None if st.name in helpers else st
+    helpers = {k: v for k, v in helpers.items() if v is not None and stores.get(k, 0) == 0 and sum(1 for y in ast.walk(fn) if isinstance(y, (ast.FunctionDef, ast.ClassDef)) and y.name == k) == 1}
+    if not helpers:
+        return
+
+    # names bound by the comprehensions / lambdas that enclose each call
+    shadowed_at = {}
+
+    def note(node, bound):
+        for ch in ast.iter_child_nodes(node):
+            b = bound
+            if isinstance(ch, (ast.ListComp, ast.SetComp, ast.DictComp, ast.GeneratorExp)):
+                b = bound | {t.id for g in ch.generators for t in ast.walk(g.target) if isinstance(t, ast.Name)}
+            elif isinstance(ch, ast.Lambda):
+                b = bound | {a_.arg for a_ in ast.walk(ch.args) if isinstance(a_, ast.arg)}
+            if isinstance(ch, ast.Call) and b:
+                shadowed_at[id(ch)] = b
+            note(ch, b)
+
+    note(fn, set())
+
+    def expand(call):
+        h = helpers.get(call.func.id) if isinstance(call.func, ast.Name) else None
+        if h is None or any(isinstance(x, ast.Starred) for x in call.args) or any(k.arg is None for k in call.keywords):
+            return None
+        a = h.args
+        params = [x.arg for x in a.args]
+        mapping = {}
+        if len(call.args) > len(params):
+            return None
+        for i, x in enumerate(call.args):
+            mapping[params[i]] = x
+        for k in call.keywords:
+            if k.arg in mapping or k.arg not in params + [x.arg for x in a.kwonlyargs]:
+                return None
+            mapping[k.arg] = k.value
+        defaults = dict(zip(params[len(params) - len(a.defaults) :], a.defaults))
+        for k_, d in zip(a.kwonlyargs, a.kw_defaults):
+            if d is not None:
+                defaults[k_.arg] = d
+        for q in params + [x.arg for x in a.kwonlyargs]:
+            if q not in mapping:
+                if q not in defaults:
+                    return None
+                mapping[q] = defaults[q]
+        if not all(_is_literal(v) or _is_ref(v) for v in mapping.values()):
+            return None
+        # no variable capture: names used by the arguments must not be bound inside the factory
+        arg_names = {y.id for v in mapping.values() for y in ast.walk(v) if isinstance(y, ast.Name)}
+        bound_inside = {y.id for y in ast.walk(h) if isinstance(y, ast.Name) and not isinstance(y.ctx, ast.Load)} | {y.arg for y in ast.walk(h) if isinstance(y, ast.arg) and y.arg not in mapping}
+        if arg_names & bound_inside:
+            return None
+        # ... and the free names of the factory must mean the same at the call site (no comprehension / lambda around
+        # the call binds one of them)
+        free = {y.id for y in ast.walk(h) if isinstance(y, ast.Name) and isinstance(y.ctx, ast.Load)} - set(mapping) - bound_inside
+        if free & shadowed_at.get(id(call), set()):
+            return None
+        # parameters must not be rebound, and nested scopes must not shadow them
+        for y in ast.walk(h):
+            if isinstance(y, ast.Name) and y.id in mapping and not isinstance(y.ctx, ast.Load):
+                return None
+            if isinstance(y, ast.arg) and y.arg in mapping and y not in a.args and y not in a.kwonlyargs:
+                return None
+            if isinstance(y, ast.comprehension) and any(isinstance(t, ast.Name) and t.id in mapping for t in ast.walk(y.target)):
+                return None
+        body = [_Subst(mapping).visit(_copy(st)) for st in h.body]
+        # fold constant branches
+        flat = []
+
+        def fold(stmts):
+            for st in stmts:
+                if isinstance(st, ast.If):
+                    v = _const_truth(st.test)
+                    if v is None:
+                        return False
+                    if not fold(st.body if v else st.orelse):
+                        return False
+                elif isinstance(st, ast.Expr) and isinstance(st.value, ast.Constant):
+                    continue
+                elif isinstance(st, ast.Pass):
+                    continue
+                else:
+                    flat.append(st)
+                if flat and isinstance(flat[-1], ast.Return):
+                    return True
+            return True
+
+        if not fold(body) or not flat or not isinstance(flat[-1], ast.Return) or flat[-1].value is None:
+            return None
+        env = {}
+        for st in flat[:-1]:
+            if not (isinstance(st, ast.Assign) and len(st.targets) == 1 and isinstance(st.targets[0], ast.Name)):
+                return None
+            nm = st.targets[0].id
+            if nm in env or nm in mapping:
+                return None
+            env[nm] = _Subst(env).visit(st.value) if env else st.value
+        result = flat[-1].value
+        if env:
+            uses = {}
+            for y in ast.walk(result):
+                if isinstance(y, ast.Name) and isinstance(y.ctx, ast.Load) and y.id in env:
+                    uses[y.id] = uses.get(y.id, 0) + 1
+            if any(n_ > 1 and not (_is_ref(env[k_]) or _is_literal(env[k_])) for k_, n_ in uses.items()):
+                return None
+            # a local that is computed but not used would lose its evaluation: only references / lambdas may be dropped
+            if any(k_ not in uses and not (_is_ref(v) or _is_literal(v) or isinstance(v, ast.Lambda)) for k_, v in env.items()):
+                return None
+            result = _Subst(env).visit(result)
+        return result
+
+    class R(ast.NodeTransformer):
+        def __init__(self):
+            self.depth = 0
+
+        def visit_FunctionDef(self, node):
+            if node is fn:
+                self.generic_visit(node)
+            return node  # nested scopes keep their calls (evaluated at another time)
+
+        visit_AsyncFunctionDef = visit_FunctionDef
+
+        def visit_Lambda(self, node):
+            return node
+
+        def visit_Call(self, node):
+            self.generic_visit(node)
+            for _ in range(3):
+                if not (isinstance(node, ast.Call) and isinstance(node.func, ast.Name) and node.func.id in helpers):
+                    break
+                new = expand(node)
+                if new is None:
+                    break
+                count["K11"] = count.get("K11", 0) + 1
+                node = ast.copy_location(new, node)
+                for y in ast.walk(node):
+                    if not hasattr(y, "lineno") and isinstance(y, (ast.expr, ast.stmt)):
+                        ast.copy_location(y, new)
+            return node
+
+    R().visit(fn)
+
+
+_IDENT = __import__("re").compile(r"^[A-Za-z_][A-Za-z0-9_]*$")
+
+
+def _plain_attr_name(e):
+    return isinstance(e, ast.Constant) and isinstance(e.value, str) and _IDENT.match(e.value) and not (e.value.startswith("__") and not e.value.endswith("__")) and not __import__("keyword").iskeyword(e.value)
+
+
+class _AttrCalls(ast.NodeTransformer):
+    def __init__(self, count):
+        self.count = count
+
+    def visit_Expr(self, node):
+        self.generic_visit(node)
+        c = node.value
+        if isinstance(c, ast.Call) and isinstance(c.func, ast.Name) and c.func.id == "setattr" and len(c.args) == 3 and not c.keywords and _plain_attr_name(c.args[1]) and not any(isinstance(a, ast.Starred) for a in c.args):
+            self.count["K9"] = self.count.get("K9", 0) + 1
+            tgt = ast.Attribute(value=c.args[0], attr=c.args[1].value, ctx=ast.Store())
+            ast.copy_location(tgt, c)
+            return ast.copy_location(ast.Assign(targets=[tgt], value=c.args[2]), node)
+        return node
+
+    def visit_Call(self, node):
+        self.generic_visit(node)
+        if isinstance(node.func, ast.Name) and node.func.id == "getattr" and len(node.args) == 2 and not node.keywords and _plain_attr_name(node.args[1]) and not any(isinstance(a, ast.Starred) for a in node.args):
+            self.count["K10"] = self.count.get("K10", 0) + 1
+            return ast.copy_location(ast.Attribute(value=node.args[0], attr=node.args[1].value, ctx=ast.Load()), node)
+        return node
+
+
+def _shadows_builtin(tree, name):
+    return any((isinstance(x, ast.Name) and x.id == name and not isinstance(x.ctx, ast.Load)) or (isinstance(x, (ast.FunctionDef, ast.ClassDef)) and x.name == name) or (isinstance(x, ast.arg) and x.arg == name) or (isinstance(x, ast.alias) and (x.asname or x.name) == name) for x in ast.walk(tree))
+
+
 def canonicalise(tree):
     """rewrite `tree` in place; returns {rewrite: number of applications}"""
     ex = _Exprs()
     ex.visit(tree)
     count = dict(ex.count)
     count["K1"] = 0
+    _inline_module_constants(tree, count)
+    # K8: table loops (module constants are visible in every function of the module)
+    module_tables = _once_bound_literals(tree.body, tree)
+    for fn in [n for n in ast.walk(tree) if isinstance(n, (ast.FunctionDef, ast.AsyncFunctionDef))]:
+        _unroll_table_loops(fn, module_tables, count)
+    # K11: calls of small local factories
+    for fn in [n for n in ast.walk(tree) if isinstance(n, (ast.FunctionDef, ast.AsyncFunctionDef))]:
+        _inline_local_factories(fn, count)
+    # K9 / K10 (only where setattr / getattr are the builtins)
+    if not _shadows_builtin(tree, "setattr") and not _shadows_builtin(tree, "getattr"):
+        _AttrCalls(count).visit(tree)
     # innermost functions first, so that an inlined expression is complete when its enclosing function is looked at
     fns = [n for n in ast.walk(tree) if isinstance(n, (ast.FunctionDef, ast.AsyncFunctionDef))]
     for fn in reversed(fns):
+        _loops_to_comprehensions(fn, count)
         _inline_temps(fn, count)
     ast.fix_missing_locations(tree)
     return count
